@@ -1292,8 +1292,15 @@ fn load_zones(names: &[&str]) -> Vec<Zn> {
     // offers (the situation in which a gap's `after` offset is not the offset
     // in force at the resolved instant)
     v.push(Zn { name: format!("posix({})", SHORT_REGIME), tz: TimeZone::posix(SHORT_REGIME).expect("posix zone"), iana: None });
+    // a rule dated on the last day of February whose UTC instant lies on the
+    // next day (22:00 at UTC-5): the UTC-side and the wall-clock-side
+    // evaluations of a POSIX rule are separate code, and only one of them has
+    // to carry Feb 28 into March (Feb 29 in leap years)
+    v.push(Zn { name: format!("posix({})", FEB_CARRY), tz: TimeZone::posix(FEB_CARRY).expect("posix zone"), iana: None });
     v
 }
+
+const FEB_CARRY: &str = "EST5EDT,J59/22,J300";
 
 const SHORT_REGIME: &str = "XXX0YYY-2,J100/0,J100/2:30";
 
